@@ -42,6 +42,8 @@ def present(us, pres):
     aware = naive.replace(tzinfo=UTC)
     if kind == 'fixed':
         return aware.astimezone(_dt.timezone(_dt.timedelta(minutes=pres[1])))
+    if kind == 'fixedsec':
+        return aware.astimezone(_dt.timezone(_dt.timedelta(seconds=pres[1])))
     if kind == 'zone':
         return aware.astimezone(zoneinfo.ZoneInfo(pres[1]))
     if kind == 'iso-naive':
@@ -76,8 +78,19 @@ class WallClock:
         return v
 
 
+class _AnyDatetime(type):
+    """isinstance(x, <shim>.datetime) must hold for every real datetime, as
+    it does for the class the shim stands in for."""
+
+    def __instancecheck__(cls, inst):
+        return isinstance(inst, _dt.datetime)
+
+    def __subclasscheck__(cls, sub):
+        return issubclass(sub, _dt.datetime)
+
+
 def make_shims(clock):
-    class SimDatetime(_dt.datetime):
+    class SimDatetime(_dt.datetime, metaclass=_AnyDatetime):
         @classmethod
         def now(cls, tz=None):
             us = clock.read()
@@ -258,7 +271,17 @@ class C12(Check):
             if kind == 'clock':
                 op = rng.choice(CLOCK_OPS)
                 if op in ('set', 'fixture_up'):
-                    ops.append([op, interesting_instant(rng)])
+                    o = [op, interesting_instant(rng)]
+                    if rng.random() < 0.12:
+                        # the override instant handed over as an AWARE
+                        # datetime (fixed offset or named zone)
+                        # (fixed offsets only: with a named zone Python adds
+                        # timedeltas on the wall clock, so an advance across
+                        # a DST change is inexact by construction)
+                        o.append(['fixed', rng.choice((
+                            0, 60, -60, 330, -210, 1439, -1439, 1, -1,
+                            rng.randrange(-1439, 1440)))])
+                    ops.append(o)
                 elif op in ('adv_delta', 'fx_adv_delta'):
                     ops.append([op, rng.choice((
                         1, -1, 10 ** 6, 86400 * 10 ** 6, 999999,
@@ -287,6 +310,11 @@ class C12(Check):
                             gen_pres(rng, False) if op != 'marshall'
                             else rng.choice((['naive'], ['fixed', 0],
                                              ['zone', 'UTC']))])
+                if op == 'isoparse' and rng.random() < 0.15:
+                    # offsets with seconds (local mean time zones)
+                    sec = rng.choice((1, -1, 59, -59, 17762, -17762, 3601,
+                                      -3601, rng.randrange(-86399, 86400)))
+                    ops[-1][2] = ['fixedsec', sec]
         if rng.random() < 0.2:
             # the same wall-clock reading twice (DST fall-back): answers must
             # not be carried over from one call to the next
@@ -345,6 +373,7 @@ class C12(Check):
         if not self.seam_ok:
             bump(pr, 'wall_clock_seam_unavailable')
         model = None        # overridden instant in us, or None
+        self.aware_override = False
         fixture = None
         distinct = set()
         try:
@@ -357,7 +386,9 @@ class C12(Check):
                     raise
                 except Exception as e:
                     viol('unexpected_exception', op=name, index=i,
-                         exc=type(e).__name__, msg=str(e)[:200])
+                         exc=type(e).__name__, msg=str(e)[:200],
+                         aware_override=bool(model is not None and
+                                             self.aware_override))
                     break
                 kind, payload = res
                 reads = clock.log[mark:]
@@ -375,6 +406,8 @@ class C12(Check):
                     reads[-1] if reads else None)
                 if model is not None:
                     bump(pr, 'override_active_query')
+                    if self.aware_override:
+                        bump(pr, 'override_is_aware_datetime')
                     if reads:
                         # looking at the real clock is not observable: only
                         # the answer counts
@@ -396,7 +429,9 @@ class C12(Check):
                 if not ok:
                     viol('wrong_' + name, index=i, op=op, got=repr(got),
                          want=repr(want), now_us=now_us,
-                         overridden=model is not None)
+                         overridden=model is not None,
+                         aware_override=bool(model is not None and
+                                             self.aware_override))
                     break
         finally:
             tu.clear_time_override()
@@ -429,9 +464,15 @@ class C12(Check):
         tu = self.tu
         name = op[0]
         if name == 'set':
-            tu.set_time_override(from_us(op[1]))
+            if len(op) > 2:
+                tu.set_time_override(present(op[1], op[2]))
+                self.aware_override = True
+            else:
+                tu.set_time_override(from_us(op[1]))
+                self.aware_override = False
             return 'model', (op[1], fixture)
         if name == 'set_default':
+            self.aware_override = False
             mark = len(clock.log)
             tu.set_time_override()
             r = clock.log[mark:]
@@ -439,7 +480,12 @@ class C12(Check):
         if name == 'fixture_up':
             if fixture is not None:
                 fixture.cleanUp()
-            f = self.fx.TimeFixture(from_us(op[1]))
+            if len(op) > 2:
+                f = self.fx.TimeFixture(present(op[1], op[2]))
+                self.aware_override = True
+            else:
+                f = self.fx.TimeFixture(from_us(op[1]))
+                self.aware_override = False
             f.setUp()
             return 'model', (op[1], f)
         if name == 'fixture_down':
@@ -474,6 +520,15 @@ class C12(Check):
         # queries ---------------------------------------------------------
         if name == 'utcnow':
             got = tu.utcnow()
+            if model is not None and self.aware_override:
+                # the override was an aware datetime: whatever form comes
+                # back must denote the same instant
+                def same(now):
+                    g = got
+                    if g.tzinfo is not None:
+                        g = (g - g.utcoffset()).replace(tzinfo=None)
+                    return g == from_us(now), from_us(now)
+                return 'q', (got, same, {'pk': 'aware-override'})
             return 'q', (got, lambda now: (
                 got == from_us(now) and got.tzinfo is None, from_us(now)),
                 {})
@@ -500,6 +555,8 @@ class C12(Check):
                 return abs(g - exact) <= tol, float(exact)
             return 'q', (got, want, {})
         if name == 'marshall_now0':
+            if model is not None and self.aware_override:
+                return 'skip', None
             got = tu.marshall_now()
 
             def want(now):
@@ -588,6 +645,18 @@ class C12(Check):
                 if folded else []})
         if name == 'isoparse':
             x = present(op[1], op[2] if op[2][0] != 'zone' else ['fixed', 0])
+            if op[2][0] == 'fixedsec':
+                # isoformat() writes such offsets as +HH:MM:SS; a parser may
+                # decline them (ValueError) - what it must not do is return
+                # another instant
+                try:
+                    got = tu.parse_isotime(x.isoformat())
+                except ValueError:
+                    return 'q', ('declined', lambda now: (True, x),
+                                 {'pk': 'fixedsec',
+                                  'probes': ['subminute_offset_declined']})
+                ok = got == x
+                return 'q', (got, lambda now: (ok, x), {'pk': 'fixedsec'})
             got = tu.parse_isotime(x.isoformat())
             if x.tzinfo is None:
                 ok = got.replace(tzinfo=None) == x and \
@@ -623,6 +692,16 @@ class C12(Check):
             return 'q', (got, lambda now: (got == want, want),
                          {'probes': ['leap_second_capped']})
         raise ValueError(name)
+
+    def finding(self, case, v):
+        d = v['detail']
+        if d.get('aware_override') and (
+                v['cls'] in ('wrong_ts', 'wrong_ts_us') or
+                (v['cls'] == 'unexpected_exception' and
+                 d.get('exc') == 'TypeError' and
+                 d.get('op') in ('older', 'newer', 'soon', 'cmp_abs'))):
+            return 'K12'
+        return None
 
     def subkey(self, case, v):
         return v['cls']
